@@ -23,7 +23,7 @@ ASSUMPTIONS = ['base calls are only checked where every sensible likelihood agre
                'with identical quality multisets give N; one base dominating in count and in every quality gives that base',
                'the MD tag is parsed tolerantly (missing zero separators accepted): only its meaning is compared with the reference']
 MIN_NONTRIVIAL = {'quick': 150, 'thorough': 30000}
-REQUIRED_MONITORS = ['history:grown_molecules', 'lib:reads_with_indel', 'ret:deduplicate_majority', 'reads:checked', 'reads:gapped', 'reads:reverse', 'bases:decidable_checked', 'bases:conflict_N_expected', 'bases:model_checked', 'bases:near_tie_checked', 'lib:near_tie_planted',
+REQUIRED_MONITORS = ['history:grown_molecules', 'lib:reads_with_indel', 'ret:deduplicate_majority', 'reads:checked', 'reads:gapped', 'reads:reverse', 'bases:decidable_checked', 'bases:conflict_N_expected', 'bases:model_checked', 'bases:near_tie_checked', 'lib:near_tie_planted', 'lib:molecules_over_their_cap',
                      'cli:consensus_reads_checked', 'split:max_N_span']
 SHARD_TIMEOUT = {'quick': 900, 'thorough': 5400}
 
@@ -343,8 +343,15 @@ def run_case(case):
         fclass = smf.NlaIIIFragment if method == 'nla' else smf.CHICFragment
         # ------------------------------------------------------------------ API
         with pysam.AlignmentFile(bam) as f, pysam.FastaFile(fa) as reference:
+            # a cap on the fragments kept per molecule (off by default): the surplus copies are counted, not stored - the fragment count the
+            # consensus record carries is the one the molecule writes on its source reads
+            cap = r.choice([None, None, 2, 3])
+            margs = {'reference': reference}
+            if cap:
+                margs['max_associated_fragments'] = cap
+            acc.count('config:max_associated_fragments', 1 if cap else 0)
             mols = list(MoleculeIterator(f, molecule_class=mclass, fragment_class=fclass, fragment_class_args={'umi_hamming_distance': 0},
-                                         molecule_class_args={'reference': reference}))
+                                         molecule_class_args=margs, yield_overflow=False))
             for mi, m in enumerate(mols):
                 ids = [F.id_from_name([x for x in frag if x is not None][0].query_name) for frag in m]
                 mol_recs = [rec for i in ids for rec in byid[i]]
@@ -363,6 +370,12 @@ def run_case(case):
                     if max_n is not None and len(out) > 1:
                         acc.count('split:max_N_span')
                     tags = {'SM': t0['sample'], 'RX': t0['umi'], 'DS': t0['site'], 'TF': len(ids)}
+                    if cap:
+                        m.write_tags()
+                        src = [x for x in m.fragments[0] if x is not None][0]
+                        tags['TF'] = src.get_tag('TF') if src.has_tag('TF') else None
+                        if tags['TF'] is not None and tags['TF'] > len(ids):
+                            acc.count('lib:molecules_over_their_cap')
                     if check_consensus_reads(acc, out, mol_recs, gen, t0['contig'], tags, f'api max_N_span={max_n}', wit):
                         acc.sigs.add(f"{case['i']}/{mi}/{max_n}")
                     if max_n is None and len(out) != 1:
